@@ -28,6 +28,8 @@ def ia_atoms(rng, g):
 
 
 def main():
+    import astlib
+    astlib.AUTO_FUNCS = 0.2       # sqrt exp ln log pow at exact points in a fifth of the generated formulas
     rep = core.Report("C06")
     quick = core.tier() == "quick"
     ax = pred("gt", var("x"), const(1)); ay = pred("le", var("y"), const(1)); axy = pred("ge", bi("sub", var("x"), var("y")), const(0))
